@@ -235,7 +235,7 @@ let apply (toks : string list) (buf : Buffer.t) =
      let k = u 3 in
      let cs = List.init k (fun j -> nat_of_int (u (4 + j))) in
      single (u 1) (Reserve cs)
-   | "qry" ->
+   | "qry" | "pqry" ->
      let ws = u 1 in
      ensure ws;
      (match !worlds.(ws) with
@@ -256,7 +256,19 @@ let apply (toks : string list) (buf : Buffer.t) =
         | None -> raise (ModelUB "entry query")
         | Some None -> ret := "nomatch"
         | Some (Some r) -> ret := "row " ^ fmt_row r)
-   | "qwr" ->
+   | "nqry" ->
+     let ws = u 1 in
+     ensure ws;
+     (match !worlds.(ws) with
+      | None -> ()
+      | Some w ->
+        let e = parse_eid arr.(2) in
+        if not (is_active w e) then ret := "noentry" else
+        match entry_query w e (parse_views arr.(5)) (parse_filter arr.(6)) with
+        | None -> raise (ModelUB "entries query")
+        | Some None -> ret := "nomatch"
+        | Some (Some r) -> ret := "row " ^ fmt_row r)
+   | "qwr" | "pqwr" ->
      let ws = u 1 in
      ensure ws;
      (match !worlds.(ws) with
@@ -356,11 +368,13 @@ let apply (toks : string list) (buf : Buffer.t) =
            let pos = ref 0 in
            let rows = List.init (int_of_string nrows) (fun _ ->
                let idx = int_of_string a.(!pos) and gen = n_of_string a.(!pos + 1) and k = int_of_string a.(!pos + 2) in
-               (* a cell written as a token of the wrong type ("!v") cannot be read: the row is short *)
-               let vals = List.filter_map (fun j ->
-                   let t = a.(!pos + 3 + j) in
-                   if String.length t > 0 && t.[0] = '!' then None else Some (n_of_string t))
-                   (List.init k (fun j -> j)) in
+               (* a cell written as a token of the wrong type ("!v") cannot be read: whatever else the row
+                  holds it is rejected (rendered here as a row no shape can have) *)
+               let cells = List.init k (fun j -> a.(!pos + 3 + j)) in
+               let vals =
+                 if List.exists (fun t -> String.length t > 0 && t.[0] = '!') cells
+                 then List.init 1000 (fun _ -> N0)
+                 else List.map n_of_string cells in
                pos := !pos + 3 + k;
                ((nat_of_int idx, gen), vals)) in
            archs := { sa_bytes = bytes; sa_len = nat_of_int (int_of_string declared); sa_rows = rows } :: !archs
